@@ -1418,6 +1418,10 @@ func (fr *frame) inputVal(path string, t types.Type) Val {
 			if v, ok := fr.in.Prog.initCell(path); ok {
 				return v
 			}
+			// an element the initialiser of a table left unset holds its zero value
+			if r := globalRoot(path); r != "" && r != path && fr.in.Prog.initHasRoot(r) {
+				return zeroVal(t)
+			}
 			if strings.HasPrefix(path, "g:"+modPath) {
 				return top
 			}
@@ -1885,4 +1889,25 @@ func (fr *frame) nextKey(x *ssa.Next, m string, elem types.Type) Val {
 	fr.iterPos[r] = pos + 1
 	k := keys[pos]
 	return Val{K: KTuple, Elems: []Val{boolVal(true), k, fr.load(m+"["+k.String()+"]", elem)}}
+}
+
+// globalRoot: "g:<package path>.<Name>" of a path below a package-level variable.
+func globalRoot(path string) string {
+	if !strings.HasPrefix(path, "g:") {
+		return ""
+	}
+	i := strings.LastIndex(path, "/")
+	if i < 0 {
+		i = 2
+	}
+	j := strings.Index(path[i:], ".")
+	if j < 0 {
+		return ""
+	}
+	for k := i + j + 1; k < len(path); k++ {
+		if path[k] == '.' || path[k] == '[' {
+			return path[:k]
+		}
+	}
+	return path
 }
